@@ -59,12 +59,19 @@ def check_closing(run, f, rule="IDX/row-has-fill"):
         probs.append(f"{params[0]} is not stored into columns [0, n_max_face_nodes) of {name} (expected {name}[:, :-1] = {params[0]})")
     # argmax of the first fill value along the corner axis
     am = None
+    from ..astutil import Resolver as _Rz
+    _rz = _Rz(fn)
+    am_seen = False
     for n in ast.walk(fn):
         if isinstance(n, ast.Call) and (dotted(n.func) or [""])[-1] == "argmax" and n.args:
-            t = S.fill_test(n.args[0])
+            am_seen = True
+            t = S.fill_test(_rz.resolve(n.args[0]))      # a local standing for the mask is looked through
             axis = next((k.value for k in n.keywords if k.arg == "axis"), n.args[1] if len(n.args) > 1 else None)
             if t and t[0] == "eq" and isinstance(t[1], ast.Name) and t[1].id == name and isinstance(axis, ast.Constant) and axis.value == 1:
                 am = n
+    if am is None and am_seen and not probs:
+        run.incomplete(rule, c, where(f, st), f"an argmax is taken, but its operand is not recognised as {name} == INT_FILL_VALUE along axis 1")
+        return name
     if am is None:
         probs.append(f"np.argmax({name} == INT_FILL_VALUE, axis=1) not found")
     if probs:
